@@ -1,0 +1,399 @@
+//go:build verif
+
+// Contracts for package iohelp, checked by /verif/gocv. This file contains
+// no executable code; it is compiled only under the build tag "verif".
+//
+// Vocabulary: le(b, o, k, x) — x is the unsigned value whose k little-endian
+// digits are b[o..o+k); unsigned(v, n) — two's complement reading of v in n
+// bits; tr(b)/hw(b) — ghost trace and high-water mark of the buffer b points
+// into (a byte store at the mark appends to the trace, any other store junks
+// it); written(w)/failed(w) — ghost state of an abstract io.Writer.
+package iohelp
+
+// ---- byte-slice readers ----------------------------------------------------
+
+//@ func ReadBoolBytes
+//@   requires len(buf) >= 1
+//@   ensures result == (byte(buf, 0) == 1)
+//@ func ReadByteBytes
+//@   requires len(buf) >= 1
+//@   ensures result == byte(buf, 0)
+//@ func ReadUint8Bytes
+//@   requires len(buf) >= 1
+//@   ensures result == byte(buf, 0)
+//@ func ReadUint16Bytes
+//@   requires len(buf) >= 2
+//@   ensures le(buf, 0, 2, result)
+//@ func ReadInt16Bytes
+//@   requires len(buf) >= 2
+//@   ensures le(buf, 0, 2, unsigned(result, 16))
+//@ func ReadUint32Bytes
+//@   requires len(buf) >= 4
+//@   ensures le(buf, 0, 4, result)
+//@ func ReadInt32Bytes
+//@   requires len(buf) >= 4
+//@   ensures le(buf, 0, 4, unsigned(result, 32))
+//@ func ReadUint64Bytes
+//@   requires len(buf) >= 8
+//@   ensures le(buf, 0, 8, result)
+//@ func ReadInt64Bytes
+//@   requires len(buf) >= 8
+//@   ensures le(buf, 0, 8, unsigned(result, 64))
+//@ func ReadFloat32Bytes
+//@   requires len(buf) >= 4
+//@   ensures le(buf, 0, 4, result)
+//@ func ReadFloat64Bytes
+//@   requires len(buf) >= 8
+//@   ensures le(buf, 0, 8, result)
+//@ func ReadGUIDBytes
+//@   requires len(buf) >= 16
+//@   ensures forall j int :: 0 <= j && j < 16 ==> result[j] == byte(buf, guidperm(j))
+
+// ---- byte-slice writers ----------------------------------------------------
+
+//@ func WriteBoolBytes
+//@   requires len(b) >= 1
+//@   ensures byte(b, 0) == ite(bl, 1, 0)
+//@   ensures old(hw(b)) == off(b) ==> tr(b) == Ew1(old(tr(b)), ite(bl, 1, 0)) && hw(b) == off(b) + 1
+//@   modifies b[0:1], tr(b), hw(b)
+//@ func WriteByteBytes
+//@   requires len(b) >= 1
+//@   ensures byte(b, 0) == by
+//@   ensures old(hw(b)) == off(b) ==> tr(b) == Ew1(old(tr(b)), by) && hw(b) == off(b) + 1
+//@   modifies b[0:1], tr(b), hw(b)
+//@ func WriteUint8Bytes
+//@   requires len(b) >= 1
+//@   ensures byte(b, 0) == by
+//@   ensures old(hw(b)) == off(b) ==> tr(b) == Ew1(old(tr(b)), by) && hw(b) == off(b) + 1
+//@   modifies b[0:1], tr(b), hw(b)
+//@ func WriteUint16Bytes
+//@   requires len(b) >= 2
+//@   ensures le(b, 0, 2, i)
+//@   ensures old(hw(b)) == off(b) ==> tr(b) == Ew2(old(tr(b)), i) && hw(b) == off(b) + 2
+//@   modifies b[0:2], tr(b), hw(b)
+//@ func WriteInt16Bytes
+//@   requires len(b) >= 2
+//@   ensures le(b, 0, 2, unsigned(i, 16))
+//@   ensures old(hw(b)) == off(b) ==> tr(b) == Ew2(old(tr(b)), unsigned(i, 16)) && hw(b) == off(b) + 2
+//@   modifies b[0:2], tr(b), hw(b)
+//@ func WriteUint32Bytes
+//@   requires len(b) >= 4
+//@   ensures le(b, 0, 4, i)
+//@   ensures old(hw(b)) == off(b) ==> tr(b) == Ew4(old(tr(b)), i) && hw(b) == off(b) + 4
+//@   modifies b[0:4], tr(b), hw(b)
+//@ func WriteInt32Bytes
+//@   requires len(b) >= 4
+//@   ensures le(b, 0, 4, unsigned(i, 32))
+//@   ensures old(hw(b)) == off(b) ==> tr(b) == Ew4(old(tr(b)), unsigned(i, 32)) && hw(b) == off(b) + 4
+//@   modifies b[0:4], tr(b), hw(b)
+//@ func WriteUint64Bytes
+//@   requires len(b) >= 8
+//@   ensures le(b, 0, 8, i)
+//@   ensures old(hw(b)) == off(b) ==> tr(b) == Ew8(old(tr(b)), i) && hw(b) == off(b) + 8
+//@   modifies b[0:8], tr(b), hw(b)
+//@ func WriteInt64Bytes
+//@   requires len(b) >= 8
+//@   ensures le(b, 0, 8, unsigned(i, 64))
+//@   ensures old(hw(b)) == off(b) ==> tr(b) == Ew8(old(tr(b)), unsigned(i, 64)) && hw(b) == off(b) + 8
+//@   modifies b[0:8], tr(b), hw(b)
+//@ func WriteFloat32Bytes
+//@   requires len(b) >= 4
+//@   ensures le(b, 0, 4, f)
+//@   ensures old(hw(b)) == off(b) ==> tr(b) == Ew4(old(tr(b)), f) && hw(b) == off(b) + 4
+//@   modifies b[0:4], tr(b), hw(b)
+//@ func WriteFloat64Bytes
+//@   requires len(b) >= 8
+//@   ensures le(b, 0, 8, f)
+//@   ensures old(hw(b)) == off(b) ==> tr(b) == Ew8(old(tr(b)), f) && hw(b) == off(b) + 8
+//@   modifies b[0:8], tr(b), hw(b)
+//@ func WriteGUIDBytes
+//@   requires len(b) >= 16
+//@   ensures forall j int :: 0 <= j && j < 16 ==> byte(b, j) == guid[guidperm(j)]
+//@   ensures old(hw(b)) == off(b) ==> tr(b) == Eguid(old(tr(b)), guid) && hw(b) == off(b) + 16
+//@   modifies b[0:16], tr(b), hw(b)
+
+// ---- strings and dates over byte slices --------------------------------------
+
+//@ func MustReadStringBytes
+//@   requires len(buf) >= 4 && len(buf) >= 4 + leval(buf, 0, 4) && 4 + leval(buf, 0, 4) < 4294967296
+//@   ensures result == str(buf, 4, leval(buf, 0, 4))
+//@ func MustReadStringBytesSharedMemory
+//@   requires len(buf) >= 4 && len(buf) >= 4 + leval(buf, 0, 4) && 4 + leval(buf, 0, 4) < 4294967296
+//@   ensures result == str(buf, 4, leval(buf, 0, 4))
+//@   modifies fresh([]byte)
+//@ func ReadStringBytes
+//@   ensures result1 == nil <==> (len(buf) >= 4 && len(buf) >= 4 + leval(buf, 0, 4))
+//@   ensures result1 == nil ==> result0 == str(buf, 4, leval(buf, 0, 4))
+//@ func ReadStringBytesSharedMemory
+//@   ensures result1 == nil <==> (len(buf) >= 4 && len(buf) >= 4 + leval(buf, 0, 4))
+//@   ensures result1 == nil ==> result0 == str(buf, 4, leval(buf, 0, 4))
+//@   modifies fresh([]byte)
+//@ func ReadDateBytes
+//@   requires len(buf) >= 8
+//@   ensures leval(buf, 0, 8) == 0 ==> isZeroTime(result)
+//@   ensures leval(buf, 0, 8) != 0 && inrange(signed(leval(buf, 0, 8), 64) * 100, int64) ==> !isZeroTime(result) && unixNano(result) == signed(leval(buf, 0, 8), 64) * 100
+
+// ---- ErrorWriter -------------------------------------------------------------------
+
+//@ define okW(ew *ErrorWriter) bool = len(ew.buffer) == 8 && ew.Writer != nil && (failed(ew.Writer) ==> ew.Err != nil)
+
+//@ func NewErrorWriter
+//@   requires w != nil
+//@   requires istype(w, *ErrorWriter) ==> okW(asptr(w, *ErrorWriter))
+//@   requires !istype(w, *ErrorWriter) ==> !failed(w)
+//@   ensures okW(result)
+//@   ensures istype(w, *ErrorWriter) ==> result == asptr(w, *ErrorWriter)
+//@   ensures !istype(w, *ErrorWriter) ==> isfresh(result) && result.Writer == w && result.Err == nil
+//@   modifies fresh(ErrorWriter), fresh(byte)
+
+//@ func (*ErrorWriter).Write
+//@   requires okW(ew)
+//@   ensures okW(ew)
+//@   ensures 0 <= n && n <= len(b) && (n < len(b) ==> err != nil)
+//@   ensures written(ew.Writer) == tr.raw(old(written(ew.Writer)), mem(byte), loc(b), n)
+//@   ensures err != nil ==> ew.Err != nil
+//@   ensures old(ew.Err) != nil ==> ew.Err != nil
+//@   ensures err == nil ==> ew.Err == old(ew.Err)
+//@   modifies ew.Err, written(ew.Writer), failed(ew.Writer)
+
+//@ func (*ErrorWriter).SafeWrite
+//@   requires okW(ew)
+//@   ensures okW(ew)
+//@   ensures old(ew.Err) != nil ==> result == 0 && written(ew.Writer) == old(written(ew.Writer)) && ew.Err == old(ew.Err)
+//@   ensures old(ew.Err) == nil ==> written(ew.Writer) == tr.raw(old(written(ew.Writer)), mem(byte), loc(b), result)
+//@   ensures 0 <= result && result <= len(b) && (result < len(b) ==> ew.Err != nil)
+//@   modifies ew.Err, written(ew.Writer), failed(ew.Writer)
+
+// Stream writers: when no error is latched afterwards, exactly the token was written.
+//@ func WriteBool
+//@   requires okW(w)
+//@   ensures okW(w)
+//@   ensures w.Err == nil ==> written(w.Writer) == Ew1(old(written(w.Writer)), ite(b, 1, 0))
+//@   ensures old(w.Err) != nil ==> w.Err != nil
+//@   modifies w.Err, written(w.Writer), failed(w.Writer), fresh(byte), tr(), hw()
+//@ func WriteByte
+//@   requires okW(w)
+//@   ensures okW(w)
+//@   ensures w.Err == nil ==> written(w.Writer) == Ew1(old(written(w.Writer)), b)
+//@   ensures old(w.Err) != nil ==> w.Err != nil
+//@   modifies w.Err, written(w.Writer), failed(w.Writer), fresh(byte), tr(), hw()
+//@ func WriteUint8
+//@   requires okW(w)
+//@   ensures okW(w)
+//@   ensures w.Err == nil ==> written(w.Writer) == Ew1(old(written(w.Writer)), b)
+//@   ensures old(w.Err) != nil ==> w.Err != nil
+//@   modifies w.Err, written(w.Writer), failed(w.Writer), fresh(byte), tr(), hw()
+//@ func WriteUint16
+//@   requires okW(w)
+//@   ensures okW(w)
+//@   ensures w.Err == nil ==> written(w.Writer) == Ew2(old(written(w.Writer)), i)
+//@   ensures old(w.Err) != nil ==> w.Err != nil
+//@   modifies w.buffer[0:8], w.Err, written(w.Writer), failed(w.Writer), tr(w.buffer), hw(w.buffer)
+//@ func WriteInt16
+//@   requires okW(w)
+//@   ensures okW(w)
+//@   ensures w.Err == nil ==> written(w.Writer) == Ew2(old(written(w.Writer)), unsigned(i, 16))
+//@   ensures old(w.Err) != nil ==> w.Err != nil
+//@   modifies w.buffer[0:8], w.Err, written(w.Writer), failed(w.Writer), tr(w.buffer), hw(w.buffer)
+//@ func WriteUint32
+//@   requires okW(w)
+//@   ensures okW(w)
+//@   ensures w.Err == nil ==> written(w.Writer) == Ew4(old(written(w.Writer)), i)
+//@   ensures old(w.Err) != nil ==> w.Err != nil
+//@   modifies w.buffer[0:8], w.Err, written(w.Writer), failed(w.Writer), tr(w.buffer), hw(w.buffer)
+//@ func WriteInt32
+//@   requires okW(w)
+//@   ensures okW(w)
+//@   ensures w.Err == nil ==> written(w.Writer) == Ew4(old(written(w.Writer)), unsigned(i, 32))
+//@   ensures old(w.Err) != nil ==> w.Err != nil
+//@   modifies w.buffer[0:8], w.Err, written(w.Writer), failed(w.Writer), tr(w.buffer), hw(w.buffer)
+//@ func WriteUint64
+//@   requires okW(w)
+//@   ensures okW(w)
+//@   ensures w.Err == nil ==> written(w.Writer) == Ew8(old(written(w.Writer)), i)
+//@   ensures old(w.Err) != nil ==> w.Err != nil
+//@   modifies w.buffer[0:8], w.Err, written(w.Writer), failed(w.Writer), tr(w.buffer), hw(w.buffer)
+//@ func WriteInt64
+//@   requires okW(w)
+//@   ensures okW(w)
+//@   ensures w.Err == nil ==> written(w.Writer) == Ew8(old(written(w.Writer)), unsigned(i, 64))
+//@   ensures old(w.Err) != nil ==> w.Err != nil
+//@   modifies w.buffer[0:8], w.Err, written(w.Writer), failed(w.Writer), tr(w.buffer), hw(w.buffer)
+//@ func WriteFloat32
+//@   requires okW(w)
+//@   ensures okW(w)
+//@   ensures w.Err == nil ==> written(w.Writer) == Ew4(old(written(w.Writer)), f)
+//@   ensures old(w.Err) != nil ==> w.Err != nil
+//@   modifies w.buffer[0:8], w.Err, written(w.Writer), failed(w.Writer), tr(w.buffer), hw(w.buffer)
+//@ func WriteFloat64
+//@   requires okW(w)
+//@   ensures okW(w)
+//@   ensures w.Err == nil ==> written(w.Writer) == Ew8(old(written(w.Writer)), f)
+//@   ensures old(w.Err) != nil ==> w.Err != nil
+//@   modifies w.buffer[0:8], w.Err, written(w.Writer), failed(w.Writer), tr(w.buffer), hw(w.buffer)
+//@ func WriteGUID
+//@   requires okW(w)
+//@   ensures okW(w)
+//@   ensures w.Err == nil ==> written(w.Writer) == Eguid(old(written(w.Writer)), guid)
+//@   ensures old(w.Err) != nil ==> w.Err != nil
+//@   modifies w.Err, written(w.Writer), failed(w.Writer), fresh(byte), tr(), hw()
+
+// ---- ErrorReader -------------------------------------------------------------------
+//
+// taken(x) counts the bytes reader x has delivered, rbyte(sid(x), i) is byte i of
+// what it delivers, failed(x) latches "some call on x returned an error".
+
+//@ define okR(er *ErrorReader) bool = len(er.buffer) == 8 && er.Reader != nil && (failed(er.Reader) ==> er.Err != nil)
+
+//@ func NewErrorReader
+//@   requires r != nil
+//@   requires istype(r, *ErrorReader) ==> okR(asptr(r, *ErrorReader))
+//@   requires !istype(r, *ErrorReader) ==> !failed(r)
+//@   ensures okR(result)
+//@   ensures istype(r, *ErrorReader) ==> result == asptr(r, *ErrorReader)
+//@   ensures !istype(r, *ErrorReader) ==> isfresh(result) && result.Reader == r && result.Err == nil
+//@   modifies fresh(ErrorReader), fresh(byte), tr(), hw()
+
+//@ func (*ErrorReader).Read
+//@   requires okR(er)
+//@   ensures okR(er)
+//@   ensures 0 <= n && n <= len(b) && (err == nil <==> n == len(b))
+//@   ensures err != nil ==> er.Err != nil
+//@   ensures old(er.Err) != nil ==> er.Err != nil
+//@   ensures err == nil ==> er.Err == old(er.Err)
+//@   ensures taken(er.Reader) == old(taken(er.Reader)) + n
+//@   ensures forall j int :: 0 <= j && j < n ==> byte(b, j) == rbyte(sid(er.Reader), old(taken(er.Reader)) + j)
+//@   modifies b[0:len(b)], er.Err, taken(er.Reader), failed(er.Reader), tr(b), hw(b)
+
+// io.ReadFull(r, buf) with r an *ErrorReader is one call of r.Read(buf) (or none when buf is empty).
+//@ assume-func io.ReadFull[r:*ErrorReader]
+//@   requires okR(asptr(r, *ErrorReader))
+//@   ensures okR(asptr(r, *ErrorReader))
+//@   ensures 0 <= n && n <= len(buf) && (err == nil <==> n == len(buf))
+//@   ensures err != nil ==> asptr(r, *ErrorReader).Err != nil
+//@   ensures old(asptr(r, *ErrorReader).Err) != nil ==> asptr(r, *ErrorReader).Err != nil
+//@   ensures err == nil ==> asptr(r, *ErrorReader).Err == old(asptr(r, *ErrorReader).Err)
+//@   ensures taken(asptr(r, *ErrorReader).Reader) == old(taken(asptr(r, *ErrorReader).Reader)) + n
+//@   ensures forall j int :: 0 <= j && j < n ==> byte(buf, j) == rbyte(sid(asptr(r, *ErrorReader).Reader), old(taken(asptr(r, *ErrorReader).Reader)) + j)
+//@   modifies buf[0:len(buf)], asptr(r, *ErrorReader).Err, taken(asptr(r, *ErrorReader).Reader), failed(asptr(r, *ErrorReader).Reader), tr(buf), hw(buf)
+
+//@ func (*ErrorReader).Drain
+//@   requires okR(er)
+//@   ensures taken(er.Reader) >= old(taken(er.Reader))
+//@   modifies taken(er.Reader), failed(er.Reader), fresh(byte), alloc()
+
+// Stream readers. [AGREE]: on success the result is what the byte-slice reader returns for the
+// bytes taken. [LATCH]: a short read is reflected in r.Err. [STALE]: when the read comes up short,
+// the result does not depend on what the scratch buffer held before the call.
+//@ func ReadBool
+//@   requires okR(r)
+//@   ensures okR(r)
+//@   ensures [LATCH] taken(r.Reader) < old(taken(r.Reader)) + 1 ==> r.Err != nil
+//@   ensures [LATCH] old(r.Err) != nil ==> r.Err != nil
+//@   ensures [AGREE] r.Err == nil ==> taken(r.Reader) == old(taken(r.Reader)) + 1 && result == (rle(r.Reader, old(taken(r.Reader)), 1) == 1)
+//@   noninterference [STALE] taken(r.Reader) < old(taken(r.Reader)) + 1 : r.buffer[0:8]
+//@   modifies r.buffer[0:8], r.Err, taken(r.Reader), failed(r.Reader), tr(r.buffer), hw(r.buffer)
+//@ func ReadByte
+//@   requires okR(r)
+//@   ensures okR(r)
+//@   ensures [LATCH] taken(r.Reader) < old(taken(r.Reader)) + 1 ==> r.Err != nil
+//@   ensures [LATCH] old(r.Err) != nil ==> r.Err != nil
+//@   ensures [AGREE] r.Err == nil ==> taken(r.Reader) == old(taken(r.Reader)) + 1 && result == rle(r.Reader, old(taken(r.Reader)), 1)
+//@   noninterference [STALE] taken(r.Reader) < old(taken(r.Reader)) + 1 : r.buffer[0:8]
+//@   modifies r.buffer[0:8], r.Err, taken(r.Reader), failed(r.Reader), tr(r.buffer), hw(r.buffer)
+//@ func ReadUint8
+//@   requires okR(r)
+//@   ensures okR(r)
+//@   ensures [LATCH] taken(r.Reader) < old(taken(r.Reader)) + 1 ==> r.Err != nil
+//@   ensures [LATCH] old(r.Err) != nil ==> r.Err != nil
+//@   ensures [AGREE] r.Err == nil ==> taken(r.Reader) == old(taken(r.Reader)) + 1 && result == rle(r.Reader, old(taken(r.Reader)), 1)
+//@   noninterference [STALE] taken(r.Reader) < old(taken(r.Reader)) + 1 : r.buffer[0:8]
+//@   modifies r.buffer[0:8], r.Err, taken(r.Reader), failed(r.Reader), tr(r.buffer), hw(r.buffer)
+//@ func ReadUint16
+//@   requires okR(r)
+//@   ensures okR(r)
+//@   ensures [LATCH] taken(r.Reader) < old(taken(r.Reader)) + 2 ==> r.Err != nil
+//@   ensures [LATCH] old(r.Err) != nil ==> r.Err != nil
+//@   ensures [AGREE] r.Err == nil ==> taken(r.Reader) == old(taken(r.Reader)) + 2 && result == rle(r.Reader, old(taken(r.Reader)), 2)
+//@   noninterference [STALE] taken(r.Reader) < old(taken(r.Reader)) + 2 : r.buffer[0:8]
+//@   modifies r.buffer[0:8], r.Err, taken(r.Reader), failed(r.Reader), tr(r.buffer), hw(r.buffer)
+//@ func ReadInt16
+//@   requires okR(r)
+//@   ensures okR(r)
+//@   ensures [LATCH] taken(r.Reader) < old(taken(r.Reader)) + 2 ==> r.Err != nil
+//@   ensures [LATCH] old(r.Err) != nil ==> r.Err != nil
+//@   ensures [AGREE] r.Err == nil ==> taken(r.Reader) == old(taken(r.Reader)) + 2 && result == signed(rle(r.Reader, old(taken(r.Reader)), 2), 16)
+//@   noninterference [STALE] taken(r.Reader) < old(taken(r.Reader)) + 2 : r.buffer[0:8]
+//@   modifies r.buffer[0:8], r.Err, taken(r.Reader), failed(r.Reader), tr(r.buffer), hw(r.buffer)
+//@ func ReadUint32
+//@   requires okR(r)
+//@   ensures okR(r)
+//@   ensures [LATCH] taken(r.Reader) < old(taken(r.Reader)) + 4 ==> r.Err != nil
+//@   ensures [LATCH] old(r.Err) != nil ==> r.Err != nil
+//@   ensures [AGREE] r.Err == nil ==> taken(r.Reader) == old(taken(r.Reader)) + 4 && result == rle(r.Reader, old(taken(r.Reader)), 4)
+//@   noninterference [STALE] taken(r.Reader) < old(taken(r.Reader)) + 4 : r.buffer[0:8]
+//@   modifies r.buffer[0:8], r.Err, taken(r.Reader), failed(r.Reader), tr(r.buffer), hw(r.buffer)
+//@ func ReadInt32
+//@   requires okR(r)
+//@   ensures okR(r)
+//@   ensures [LATCH] taken(r.Reader) < old(taken(r.Reader)) + 4 ==> r.Err != nil
+//@   ensures [LATCH] old(r.Err) != nil ==> r.Err != nil
+//@   ensures [AGREE] r.Err == nil ==> taken(r.Reader) == old(taken(r.Reader)) + 4 && result == signed(rle(r.Reader, old(taken(r.Reader)), 4), 32)
+//@   noninterference [STALE] taken(r.Reader) < old(taken(r.Reader)) + 4 : r.buffer[0:8]
+//@   modifies r.buffer[0:8], r.Err, taken(r.Reader), failed(r.Reader), tr(r.buffer), hw(r.buffer)
+//@ func ReadUint64
+//@   requires okR(r)
+//@   ensures okR(r)
+//@   ensures [LATCH] taken(r.Reader) < old(taken(r.Reader)) + 8 ==> r.Err != nil
+//@   ensures [LATCH] old(r.Err) != nil ==> r.Err != nil
+//@   ensures [AGREE] r.Err == nil ==> taken(r.Reader) == old(taken(r.Reader)) + 8 && result == rle(r.Reader, old(taken(r.Reader)), 8)
+//@   noninterference [STALE] taken(r.Reader) < old(taken(r.Reader)) + 8 : r.buffer[0:8]
+//@   modifies r.buffer[0:8], r.Err, taken(r.Reader), failed(r.Reader), tr(r.buffer), hw(r.buffer)
+//@ func ReadInt64
+//@   requires okR(r)
+//@   ensures okR(r)
+//@   ensures [LATCH] taken(r.Reader) < old(taken(r.Reader)) + 8 ==> r.Err != nil
+//@   ensures [LATCH] old(r.Err) != nil ==> r.Err != nil
+//@   ensures [AGREE] r.Err == nil ==> taken(r.Reader) == old(taken(r.Reader)) + 8 && result == signed(rle(r.Reader, old(taken(r.Reader)), 8), 64)
+//@   noninterference [STALE] taken(r.Reader) < old(taken(r.Reader)) + 8 : r.buffer[0:8]
+//@   modifies r.buffer[0:8], r.Err, taken(r.Reader), failed(r.Reader), tr(r.buffer), hw(r.buffer)
+//@ func ReadFloat32
+//@   requires okR(r)
+//@   ensures okR(r)
+//@   ensures [LATCH] taken(r.Reader) < old(taken(r.Reader)) + 4 ==> r.Err != nil
+//@   ensures [LATCH] old(r.Err) != nil ==> r.Err != nil
+//@   ensures [AGREE] r.Err == nil ==> taken(r.Reader) == old(taken(r.Reader)) + 4 && result == rle(r.Reader, old(taken(r.Reader)), 4)
+//@   noninterference [STALE] taken(r.Reader) < old(taken(r.Reader)) + 4 : r.buffer[0:8]
+//@   modifies r.buffer[0:8], r.Err, taken(r.Reader), failed(r.Reader), tr(r.buffer), hw(r.buffer)
+//@ func ReadFloat64
+//@   requires okR(r)
+//@   ensures okR(r)
+//@   ensures [LATCH] taken(r.Reader) < old(taken(r.Reader)) + 8 ==> r.Err != nil
+//@   ensures [LATCH] old(r.Err) != nil ==> r.Err != nil
+//@   ensures [AGREE] r.Err == nil ==> taken(r.Reader) == old(taken(r.Reader)) + 8 && result == rle(r.Reader, old(taken(r.Reader)), 8)
+//@   noninterference [STALE] taken(r.Reader) < old(taken(r.Reader)) + 8 : r.buffer[0:8]
+//@   modifies r.buffer[0:8], r.Err, taken(r.Reader), failed(r.Reader), tr(r.buffer), hw(r.buffer)
+//@ func ReadDate
+//@   requires okR(r)
+//@   ensures okR(r)
+//@   ensures [LATCH] taken(r.Reader) < old(taken(r.Reader)) + 8 ==> r.Err != nil
+//@   ensures [LATCH] old(r.Err) != nil ==> r.Err != nil
+//@   ensures [AGREE] r.Err == nil ==> taken(r.Reader) == old(taken(r.Reader)) + 8
+//@   ensures [AGREE] r.Err == nil && rle(r.Reader, old(taken(r.Reader)), 8) == 0 ==> isZeroTime(result)
+//@   ensures [AGREE] r.Err == nil && rle(r.Reader, old(taken(r.Reader)), 8) != 0 && inrange(signed(rle(r.Reader, old(taken(r.Reader)), 8), 64) * 100, int64) ==> !isZeroTime(result) && unixNano(result) == signed(rle(r.Reader, old(taken(r.Reader)), 8), 64) * 100
+//@   noninterference [STALE] taken(r.Reader) < old(taken(r.Reader)) + 8 : r.buffer[0:8]
+//@   modifies r.buffer[0:8], r.Err, taken(r.Reader), failed(r.Reader), tr(r.buffer), hw(r.buffer)
+//@ func ReadGUID
+//@   requires okR(r)
+//@   ensures okR(r)
+//@   ensures [LATCH] taken(r.Reader) < old(taken(r.Reader)) + 16 ==> r.Err != nil
+//@   ensures [LATCH] old(r.Err) != nil ==> r.Err != nil
+//@   ensures [AGREE] r.Err == nil ==> taken(r.Reader) == old(taken(r.Reader)) + 16 && (forall j int :: 0 <= j && j < 16 ==> result[j] == rbyte(sid(r.Reader), old(taken(r.Reader)) + guidperm(j)))
+//@   modifies r.Err, taken(r.Reader), failed(r.Reader), fresh(byte), tr(), hw(), alloc()
+//@ func ReadString
+//@   requires okR(r)
+//@   ensures okR(r)
+//@   ensures [LATCH] old(r.Err) != nil ==> r.Err != nil
+//@   ensures [AGREE] r.Err == nil ==> taken(r.Reader) == old(taken(r.Reader)) + 4 + rle(r.Reader, old(taken(r.Reader)), 4) && result == rstr(sid(r.Reader), old(taken(r.Reader)) + 4, rle(r.Reader, old(taken(r.Reader)), 4))
+//@   ensures alloc() <= old(alloc()) + 4294967295
+//@   modifies r.buffer[0:8], r.Err, taken(r.Reader), failed(r.Reader), tr(), hw(), fresh(byte), alloc()
